@@ -968,6 +968,52 @@ theorem model_stokesI_nonneg (e : J2 ℝ) (sv : S4 ℝ) (ha : 0 ≤ sv.i) (hphys
 example : (0 : ℝ) ≤ (⟨1, 0, 0, 0⟩ : S4 ℝ).i ∧ (⟨1, 0, 0, 0⟩ : S4 ℝ).q ^ 2 + (⟨1, 0, 0, 0⟩ : S4 ℝ).u ^ 2 + (⟨1, 0, 0, 0⟩ : S4 ℝ).v ^ 2 ≤ (⟨1, 0, 0, 0⟩ : S4 ℝ).i ^ 2 := by
   norm_num
 
+/-- **Half-wave plate** (`Model.halfWavePlate`, driver op `hwp`, compared with `HalfWavePlate` / `GeometricPhaseElement.jones_matrix`):
+it is `i` times the reflection `[[cos 2θ, sin 2θ], [sin 2θ, −cos 2θ]]`, and two of them in a row are `−1` (the identity up to a global phase). -/
+theorem model_hwp (h1 : c ^ 2 + s ^ 2 = 1) :
+    halfWavePlate c s = ⟨⟨0, c * c - s * s⟩, ⟨0, 2 * (c * s)⟩, ⟨0, 2 * (c * s)⟩, ⟨0, s * s - c * c⟩⟩ ∧
+    halfWavePlate c s * halfWavePlate c s = ⟨⟨-1, 0⟩, ⟨0, 0⟩, ⟨0, 0⟩, ⟨-1, 0⟩⟩ := by
+  have cx_ext : ∀ {a b : Cx ℝ}, a.re = b.re → a.im = b.im → a = b := by
+    intro a b h1 h2; cases a; cases b; simp only at h1 h2; rw [h1, h2]
+  have e : halfWavePlate c s = (⟨⟨0, c * c - s * s⟩, ⟨0, 2 * (c * s)⟩, ⟨0, 2 * (c * s)⟩, ⟨0, s * s - c * c⟩⟩ : J2 ℝ) := by
+    simp only [halfWavePlate, retarder, J2.mk.injEq]
+    refine ⟨?_, ?_, ?_, ?_⟩ <;> apply cx_ext <;>
+      simp only [Cx.smul, Cx.add_re, Cx.add_im, Cx.sub_re, Cx.sub_im, Cx.mul_re, Cx.mul_im, Cx.conj_re, Cx.conj_im] <;> ring
+  refine ⟨e, ?_⟩
+  rw [e]
+  show J2.mul _ _ = _
+  simp only [J2.mul, J2.mk.injEq]
+  refine ⟨?_, ?_, ?_, ?_⟩ <;> apply cx_ext <;>
+    simp only [Cx.add_re, Cx.add_im, Cx.mul_re, Cx.mul_im] <;>
+    first | ring1 | linear_combination (-(c ^ 2 + s ^ 2) - 1) * h1
+
+/-- **Quarter-wave plate** (`Model.quarterWavePlate`, driver op `qwp`, compared with `QuarterWavePlate.jones_matrix`; `h = √½`): two
+quarter-wave plates at the same angle are the half-wave plate at that angle. -/
+theorem model_qwp_twice (h : ℝ) (h1 : c ^ 2 + s ^ 2 = 1) (hh : 2 * (h * h) = 1) :
+    quarterWavePlate c s h * quarterWavePlate c s h = halfWavePlate c s := by
+  have cx_ext : ∀ {a b : Cx ℝ}, a.re = b.re → a.im = b.im → a = b := by
+    intro a b h1 h2; cases a; cases b; simp only at h1 h2; rw [h1, h2]
+  show J2.mul _ _ = _
+  simp only [quarterWavePlate, halfWavePlate, retarder, J2.mul, J2.mk.injEq]
+  refine ⟨?_, ?_, ?_, ?_⟩ <;> apply cx_ext <;>
+    simp only [Cx.smul, Cx.add_re, Cx.add_im, Cx.sub_re, Cx.sub_im, Cx.mul_re, Cx.mul_im, Cx.conj_re, Cx.conj_im] <;>
+    first
+      | ring1
+      | linear_combination ((c * c - s * s) * (c ^ 2 + s ^ 2)) * hh + (c * c - s * s) * h1
+      | linear_combination ((2 * (c * s)) * (c ^ 2 + s ^ 2)) * hh + (2 * (c * s)) * h1
+      | linear_combination ((s * s - c * c) * (c ^ 2 + s ^ 2)) * hh + (s * s - c * c) * h1
+
+/-- Both wave plates are instances of the executed retarder, so they are unitary, conserve `I` for every wavefront kind and are undone by
+`backward` (`model_retarder_unitary`, `model_retarder_conserves_I_tensor`, `model_retarder_backward_forward(_tensor)` at these atoms). -/
+theorem model_waveplates_unitary (h : ℝ) (h1 : c ^ 2 + s ^ 2 = 1) (hh : 2 * (h * h) = 1) (e : J2 ℝ) (sv : S4 ℝ) :
+    (jonesStokes (halfWavePlate c s * e) sv).i = (jonesStokes e sv).i ∧ (jonesStokes (quarterWavePlate c s h * e) sv).i = (jonesStokes e sv).i ∧
+    (halfWavePlate c s).adj * (halfWavePlate c s * e) = e ∧ (quarterWavePlate c s h).adj * (quarterWavePlate c s h * e) = e := by
+  have u1 : (0 : ℝ) ^ 2 + 1 ^ 2 = 1 := by norm_num
+  have u2 : (1 : ℝ) ^ 2 + 0 ^ 2 = 1 := by norm_num
+  have u3 : h ^ 2 + h ^ 2 = 1 := by linear_combination hh
+  exact ⟨model_retarder_conserves_I_tensor c s 0 1 1 0 h1 u1 u2 e sv, model_retarder_conserves_I_tensor c s h h 1 0 h1 u3 u2 e sv,
+    model_retarder_backward_forward_tensor c s 0 1 1 0 h1 u1 u2 e, model_retarder_backward_forward_tensor c s h h 1 0 h1 u3 u2 e⟩
+
 end round5
 
 end HcipyVerif.C08
